@@ -310,6 +310,30 @@ fn curve_checks(args: &Args, st: &mut Stats) {
                 }
             }
         }
+        // ---- a cubic collapsed to a single point of the curve, in either order: whatever pair is reported denotes the
+        // common point (the receiver's parameter first)
+        {
+            let td = r.range(0, 16) as f64 / 16.0;
+            let pd = c.sample(td);
+            let dot = CubicBezierSegment { from: pd, ctrl1: pd, ctrl2: pd, to: pd };
+            st.inc("cubic_point_curve");
+            for (first, second, lbl) in [(&c, &dot, "curve x point"), (&dot, &c, "point x curve")] {
+                match catch(|| first.cubic_intersections_t(second)) {
+                    None => st.fail(jobj(&[("what", jstr("cubic_intersections_t panicked")), ("input", jstr(&format!("{} {:?} {:?}", lbl, first, second)))])),
+                    Some(v) => {
+                        if !v.is_empty() {
+                            st.inc("cubic_point_curve_with_hits");
+                        }
+                        for (t, u) in v.iter() {
+                            let d = (first.sample(*t) - second.sample(*u)).length();
+                            if !(0.0..=1.0).contains(t) || !(0.0..=1.0).contains(u) || d > 1e-3 {
+                                st.fail(jobj(&[("what", jstr("cubic/cubic with a point curve: parameters do not denote a common point")), ("input", jstr(&format!("{} {:?} {:?} t={} u={} d={}", lbl, first, second, t, u, d)))]));
+                            }
+                        }
+                    }
+                }
+            }
+        }
         // ---- cubic x cubic: soundness of every reported pair
         let c2 = CubicBezierSegment { from: g(r), ctrl1: g(r), ctrl2: g(r), to: g(r) };
         st.inc("evaluations");
